@@ -167,6 +167,16 @@ class GenValue:
         raise v
 
 
+class OpHelper:
+    """operator.methodcaller / attrgetter / itemgetter objects of the analysed program"""
+
+    def __init__(self, kind: str, names: tuple, args: tuple = (), kwargs: Optional[dict] = None):
+        self.kind, self.names, self.args, self.kwargs = kind, names, args, kwargs or {}
+
+    def __repr__(self):
+        return f"<{self.kind}{self.names}>"
+
+
 class Raised(Exception):
     def __init__(self, what: str):
         self.what = what
@@ -471,6 +481,46 @@ class Machine:
                     return Mono(x.base, x.exp + y[1])
         return Opaque(f"({render(a)} {type(op).__name__} {render(b)})", (type(op).__name__, a, b))
 
+    def apply_helper(self, h: "OpHelper", obj, node):
+        """methodcaller(name, *a)(obj) is obj.name(*a); attrgetter('a.b')(obj) is obj.a.b; itemgetter(k)(obj) is obj[k]"""
+        def attr_of(o, dotted):
+            for part in dotted.split("."):
+                if isinstance(o, Record) and part in o.values:
+                    o = o.values[part]
+                elif isinstance(o, Opaque):
+                    text = f"{o.text}.{part}"
+                    v = self.attrs(text)
+                    o = Opaque(text, ("attr", o, part)) if v is NotImplemented else v
+                else:
+                    raise Undecidable(f"attribute {part} of {o!r}")
+            return o
+        if h.kind == "attrgetter":
+            vals = [attr_of(obj, n_) for n_ in h.names]
+            return vals[0] if len(vals) == 1 else tuple(vals)
+        if h.kind == "itemgetter":
+            def item(k):
+                if isinstance(obj, (list, tuple, dict)):
+                    try:
+                        return obj[k]
+                    except (KeyError, IndexError):
+                        raise Raised(f"KeyError: {k!r}")
+                if isinstance(obj, Opaque):
+                    return Opaque(f"{obj.text}[{k!r}]", ("index", obj, k))
+                raise Undecidable(f"item {k!r} of {obj!r}")
+            vals = [item(k) for k in h.names]
+            return vals[0] if len(vals) == 1 else tuple(vals)
+        mname = h.names[0]
+        if isinstance(obj, Opaque):
+            full = f"{obj.text}.{mname}"
+            r_ = self.call_hook(self, node, full, list(h.args), dict(h.kwargs))
+            if r_ is not NotImplemented:
+                return r_
+            parts = [render(a) for a in h.args] + [f"{k}={render(v)}" for k, v in h.kwargs.items()]
+            return Opaque(f"{full}({', '.join(parts)})", ("call", full, list(h.args), dict(h.kwargs), obj))
+        if isinstance(obj, (dict, list)) and mname == "copy" and not h.args:
+            return dict(obj) if isinstance(obj, dict) else list(obj)
+        raise Undecidable(f"method {mname} of {obj!r}")
+
     def arguments(self, e: ast.Call):
         args: List[Any] = []
         for a in e.args:
@@ -610,8 +660,23 @@ class Machine:
             if isinstance(fv, Closure):
                 args_, kwargs_ = self.arguments(e)
                 return self.invoke(fv, args_, kwargs_)
+        if isinstance(e.func, (ast.Name, ast.Attribute)):
+            try:
+                fv_ = self.ev(e.func) if isinstance(e.func, ast.Name) and e.func.id in self.env else None
+            except AnalysisError:
+                fv_ = None
+            if isinstance(fv_, OpHelper):
+                args_, kwargs_ = self.arguments(e)
+                if len(args_) == 1 and not kwargs_:
+                    return self.apply_helper(fv_, args_[0], e)
         name, recv = self.callee(e.func)
         args, kwargs = self.arguments(e)
+        if name.split(".")[-1] in ("methodcaller", "attrgetter", "itemgetter") and name.split(".")[0] in ("operator", "methodcaller", "attrgetter", "itemgetter") \
+                and args and all(isinstance(a_, (str, int)) for a_ in args[:1]):
+            k_ = name.split(".")[-1]
+            if k_ == "methodcaller":
+                return OpHelper(k_, (args[0],), tuple(args[1:]), dict(kwargs))
+            return OpHelper(k_, tuple(args))
         r = self.call_hook(self, e, name, args, kwargs)
         if r is not NotImplemented:
             return r
@@ -656,12 +721,29 @@ class Machine:
             for items in zip(*args[1:]):
                 if isinstance(fn_, Closure):
                     out_.append(self.invoke(fn_, list(items), {}))
+                elif isinstance(fn_, OpHelper) and len(items) == 1:
+                    out_.append(self.apply_helper(fn_, items[0], e))
                 elif isinstance(fn_, Opaque):
                     r_ = self.call_hook(self, e, fn_.text, list(items), {})
                     out_.append(Opaque(f"{fn_.text}({', '.join(render(x) for x in items)})", ("call", fn_.text, list(items), {}, None)) if r_ is NotImplemented else r_)
                 else:
                     raise Undecidable(f"map over {fn_!r}")
             return out_
+        if short in ("filter", "filterfalse") and name.split(".")[0] in ("filter", "filterfalse", "itertools") and len(args) == 2 \
+                and isinstance(args[1], (list, tuple)):
+            pred, keep = args[0], []
+            for x_ in args[1]:
+                if pred is None:
+                    v_ = x_
+                elif isinstance(pred, Closure):
+                    v_ = self.invoke(pred, [x_], {})
+                elif isinstance(pred, OpHelper):
+                    v_ = self.apply_helper(pred, x_, e)
+                else:
+                    raise Undecidable(f"{short} with the predicate {pred!r}")
+                if self.truth(v_, e) == (short == "filter"):
+                    keep.append(x_)
+            return keep
         if name in ("all", "any") and len(args) == 1 and isinstance(args[0], (list, tuple)):
             vals = [self.truth(x, e) for x in args[0]]
             return all(vals) if name == "all" else any(vals)
@@ -988,6 +1070,14 @@ def module_constants(tree: ast.Module) -> Dict[str, Any]:
                 v = m.ev(st.value)
             except AnalysisError:
                 continue
+            m.env[st.targets[0].id] = v
+            out[st.targets[0].id] = v
+        if isinstance(st, ast.Assign) and len(st.targets) == 1 and isinstance(st.targets[0], ast.Name) and isinstance(st.value, ast.Call) \
+                and ast.unparse(st.value.func).split(".")[-1] in ("methodcaller", "attrgetter", "itemgetter") \
+                and st.value.args and all(isinstance(a_, ast.Constant) for a_ in st.value.args) and not st.value.keywords:
+            k_ = ast.unparse(st.value.func).split(".")[-1]
+            vals_ = tuple(a_.value for a_ in st.value.args)
+            v = OpHelper(k_, vals_[:1], vals_[1:]) if k_ == "methodcaller" else OpHelper(k_, vals_)
             m.env[st.targets[0].id] = v
             out[st.targets[0].id] = v
         if isinstance(st, ast.ClassDef) and any("NamedTuple" in ast.unparse(b) for b in st.bases):
